@@ -671,6 +671,15 @@ func (fg *FuncGen) trCall(x *SCall, env *SpecEnv, hint types.Type) Val {
 			}
 		}
 		return fg.tr(x.Args[0], &ne, hint)
+	case "atentry":
+		// atentry(e), in a loop invariant: the value of e in the state in which the loop was entered
+		// (before the first iteration); locals assigned before the loop have their values of that moment
+		if env.loop == nil || env.loop.entrySt == nil {
+			fg.specFail(env, "atentry outside a loop invariant")
+		}
+		ne := *env
+		ne.st = env.loop.entrySt
+		return fg.tr(x.Args[0], &ne, hint)
 	case "len":
 		v := arg(0, nil)
 		switch u := v.Typ.Underlying().(type) {
